@@ -3,7 +3,7 @@
    Recorded defects: D11 (',' in regular values), D25 (space after a hex escape is swallowed);
    their witnesses are in props/C15_findings.v. *)
 From V Require Import lib.Base lib.Regex lib.Utf8 gen.GenRegex spec.CssSyntax model.Url model.Style spec.StyleSpec
-  proofs.StyleFacts proofs.CssTokFacts proofs.StyleTokFacts.
+  proofs.StyleFacts proofs.StyleExactFacts proofs.CssTokFacts proofs.StyleTokFacts.
 
 (* the output is the concatenation, in the documented order and under the documented property
    names, of one chunk  name:value;  per non-empty field (regenerated emission list = documented list) *)
@@ -30,10 +30,14 @@ Theorem C15_regular_values_partial : forall p fname css v,
 Proof. exact regular_value_spec. Qed.
 Print Assumptions C15_regular_values_partial.
 
-Definition C15_regular_values_full_statement : Prop := forall p fname css v,
+(* the full statement; it holds since the repair of D11 (fix: escape the hyphen in
+   safeRegularPropertyValuePattern): the regenerated pattern lies within the documented language *)
+Theorem C15_regular_values : forall p fname css v,
   field_by_name p fname = Some (PStr v) -> v <> [] ->
   (doc_emit p (fname, css, 3) = css ++ [58] ++ v ++ [59] /\ doc_regular v = true)
   \/ doc_emit p (fname, css, 3) = css ++ [58] ++ documented_innocuous ++ [59].
+Proof. exact regular_value_spec_full. Qed.
+Print Assumptions C15_regular_values.
 
 Theorem C15_enum_values : forall p fname css v,
   field_by_name p fname = Some (PStr v) -> v <> [] ->
